@@ -9,7 +9,7 @@ for n in ["Overlap", "ChEarly"]:
     PROPERTY_OF[n] = "C04"
 for n in ["NotCancelled", "LiveMany", "LiveOrphan", "LiveStaleCtx", "LiveStale", "StateLost"]:
     PROPERTY_OF[n] = "C05"
-for n in ["RerunAfterSuccess", "RerunAfterError", "RerunNoCause", "CancelNoCause", "RestartLost", "RetryLost", "BackoffNotReset", "WaitWrong", "WaitStuck",
+for n in ["RerunAfterSuccess", "RerunAfterError", "RerunNoCause", "CancelNoCause", "RestartLost", "RetryLost", "BackoffNotReset", "BackoffNoFailure", "WaitWrong", "WaitStuck",
           "ExitCbDup", "ExitCbFabricated", "ExitCbWrongErr", "ExitCbMissing"]:
     PROPERTY_OF[n] = "C14"
 
@@ -27,8 +27,8 @@ LABEL_RULES = [
 ]
 FIX_F2 = True   # X models the code after "fix: routine: a new instance waits for every earlier instance to return"
 
-SCEN = {"quick": ["rt_q1", "rt_q3", "rt_q4", "rt_q6", "rt_q8", "rt_q9", "rt_q11", "rt_q12", "rt_q13"],
-        "thorough": ["rt_q1", "rt_q2", "rt_q3", "rt_q4", "rt_q5", "rt_q6", "rt_q7", "rt_q8", "rt_q9", "rt_q10", "rt_q11", "rt_q12", "rt_q13", "rt_t5", "rt_t1", "rt_t2", "rt_t3", "rt_t4"]}
+SCEN = {"quick": ["rt_q1", "rt_q3", "rt_q4", "rt_q6", "rt_q8", "rt_q9", "rt_q11", "rt_q12", "rt_q13", "rt_q14", "rt_q15"],
+        "thorough": ["rt_q1", "rt_q2", "rt_q3", "rt_q4", "rt_q5", "rt_q6", "rt_q7", "rt_q8", "rt_q9", "rt_q10", "rt_q11", "rt_q12", "rt_q13", "rt_q14", "rt_q15", "rt_t5", "rt_t1", "rt_t2", "rt_t3", "rt_t4"]}
 
 
 def scen_path(n):
